@@ -25,6 +25,7 @@ registry! {
     "C11" => c11,
     "C12" => c12,
     "C13" => c13,
+    "C14" => c14,
     "C17" => c17,
     "C18" => c18,
 }
